@@ -594,3 +594,184 @@ Check form_size_write_len : forall dbg cx v ops, av_write dbg cx v = Ok ops -> e
 Check abbrev_dedup : forall tab a code tab' ext, abbrev_add tab a = (code, tab') -> NoDup (tab' ++ ext) ->
   abbrev_add (tab' ++ ext) a = (code, tab' ++ ext).
 Check unencodable_is_error : forall dbg cx v er, av_unencodable cx v = Some er -> av_write dbg cx v = Err er.
+
+(* ================================================================ GLUE with C15 (expressions) — Model/UnitGlueWr.v
+   UnitWr keeps a write::Expression opaque (a predicted size + a byte string, linked by the hypothesis `expr_ok`).
+   The composed model instantiates it the way unit.rs does: AttributeValue::Exprloc(e).size = uleb + e.size(enc,
+   Some(offsets so far)), .write = uleb(e.size(enc, Some(offsets))) ; e.write(w, Some(debug_info_refs), enc,
+   Some(offsets)) at w.len().  Tied to gimli by stream c11.glue.  Everything below is a COMPOSITION of C11 and C15
+   theorems (Proofs/WriterGlueProofs.v); nothing about units or expressions is re-proved. *)
+Require Import GV.Model.UnitGlueWr GV.Proofs.WriterGlueProofs.
+Require GV.Model.OpWr GV.Model.OpDec GV.Spec.OpEncSpec GV.Proofs.OpWrProofs GV.Proofs.OpWrDec GV.Proofs.OpWrTotal GV.Proofs.OpRoundtrip.
+
+(* (g1) size() = bytes written for the composed attribute writer: form_size_write_len with the expression hypothesis
+   DISCHARGED by C15 expr_size (gexpr_ok only concerns opaque UnitWr Exprloc values mixed in, True for GExpr). *)
+Theorem exprloc_attr_size_write : forall (dbg : bool) (cx : wcx) (pos : N) (v : gval) (ops : list wop) (fx : list fixup),
+  gav_write dbg cx pos v = Ok (ops, fx) -> gexpr_ok v -> ops_len ops < 2 ^ 64 ->
+  gav_size dbg (wc_enc cx) (wc_be cx) (wc_lpv cx) (cx_uo cx) v = Ok (ops_len ops).
+Proof. exact exprloc_attr_size_write_lemma. Qed.
+
+(* (g2) AttributeValue::Exprloc(ex) written at position `pos` of .debug_info, for EVERY operation list `ex` of Rust-typed,
+   decodable operations (unit-relative references call / typed ops / parameter_ref and .debug_info-relative
+   references call_ref / implicit_pointer / variable_value included):
+     * C03's attribute reader (Attr.parse_attribute, form exprloc from DWARF 4, block before) consumes exactly the
+       written bytes and returns a value whose expression block is `body`, the ULEB prefix being |body|;
+     * C07's decoder (OpDec.operations) over `body` ends normally with the reader forms of the normal forms of the
+       built operations; by normal_form every unit-relative operand is `entry_offset dbg (Some (cx_uo cx)) en`,
+       i.e. (glue_ref_is_mark below) the offsets_exact position of its target minus the unit offset;
+     * the operations are laid out from pos + |prefix| (laid) and the fix-ups pushed to debug_info_fixups are exactly
+       those of that layout: by C15 ref_fixups_at_operands each sits at (attribute position + prefix length + offset
+       of the operation inside the expression + 1). *)
+Theorem exprloc_attr_roundtrip : forall (dbg dbg' rdbg : bool) (cx : wcx) (pos name : N) (ex : OpWr.wexpr)
+    (ops : list wop) (fx : list fixup) (rest : list byte),
+  gav_write dbg cx pos (GExpr ex) = Ok (ops, fx) ->
+  forallb OpWr.wf_op ex = true -> OpWr.wf_uoffs (Some (cx_uo cx)) = true -> forallb OpWrDec.decodable ex = true ->
+  pos + ops_len ops < 2 ^ 63 -> AttrProofs.addr_size_ok (renc cx) ->
+  exists l body fx0 offsets dl ros val,
+    ops_bytes ops = l ++ body /\
+    OpEncSpec.rd_uleb (l ++ body ++ rest) = Some (UnitWr.blen body, body ++ rest) /\
+    AT.parse_attribute dbg' (renc cx)
+       (AT.mkSpec name (if 4 <=? e_ver (wc_enc cx) then DW_FORM_exprloc else DW_FORM_block) 0)
+       (ops_bytes ops ++ rest) = Ok (val, rest) /\
+    AT.exprloc_value val = Some body /\
+    OpDec.operations rdbg (OpRoundtrip.renc (OpWrProofs.dcfg_of (cx_oe cx))) body = (ros, None) /\
+    map (fun x => OpRoundtrip.tr (snd x)) dl = map Some ros /\
+    OpWrDec.decoded (fun p o d => exists b, OpWrDec.normal_form dbg (cx_oe cx) (Some (cx_uo cx)) true offsets p o b d)
+                    (pos + UnitWr.blen l) ex offsets dl /\
+    OpWrProofs.laid (OpWr.write_op dbg (cx_oe cx) (Some (cx_uo cx)) true offsets) (pos + UnitWr.blen l) ex offsets body fx0 /\
+    fx = map gfix fx0.
+Proof. exact exprloc_attr_read_lemma. Qed.
+
+(* (g3) the forward-reference error: while calculate_offsets sizes an Exprloc whose expression embeds, ULEB-encoded, the
+   unit offset of an entry that has no offset yet in the table built so far (or lies beyond the entries vector),
+   AttributeValue::size is
+   Err UnsupportedExpressionForwardReference (call / parameter_ref, fixed width, are exempt at this point) *)
+Theorem exprloc_forward_ref : forall (dbg : bool) (e : encoding) (be : bool) (lpv : N) (uo : OpWr.uoffs)
+    (pre : OpWr.wexpr) (o : OpWr.wop) (post : OpWr.wexpr) (en n : N),
+  OpWrDec.uses_entry o = Some en -> OpWr.wf_op o = true ->
+  match o with OpWr.WoCall _ | OpWr.WoParameterRef _ => False | _ => True end ->
+  (OpWr.nth_N (OpWr.uo_entries uo) en = Some 0 \/ OpWr.nth_N (OpWr.uo_entries uo) en = None) ->
+  OpWr.size_expr dbg (oenc e be) (Some uo) pre = Ok n ->
+  gav_size dbg e be lpv uo (GExpr (pre ++ o :: post)) = Err WUnsupportedExpressionForwardReference.
+Proof. exact exprloc_forward_ref_lemma. Qed.
+
+(* (g4) the unit body: offsets_exact for the composed passes.  gcalc (sizes under the table built so far) followed by
+   gwrite_die (under the complete table) ARE UnitWr's calc and write_die on ONE tree d, the composed tree with each
+   Expression instantiated under the complete table (xrel) — C15 size_mono bridges the two tables — so every C11
+   theorem (roundtrip, unit_read_by_reader, refs_resolve ...) holds of the composed output with its expression
+   hypothesis (die_expr_ok d) discharged, and the table the expressions were written under maps every entry of the
+   tree to the position of its DIE. *)
+Theorem glue_offsets_exact : forall (dbg : bool) (cx : wcx) (g : gdie) (st0 st : cst) (ops : list wop) (fx : list fixup),
+  gcalc dbg (wc_enc cx) (wc_be cx) (wc_lpv cx) (wc_unit_off cx) g st0 = Ok st ->
+  wc_entries cx = cs_entries st -> wc_codes cx = cs_codes st ->
+  gwrite_die dbg cx g (cs_off st0) = Ok (ops, fx) ->
+  NoDup (gdie_ids g) -> gdie_ok g ->
+  (forall j y, nth_error (cs_entries st0) j = Some y -> y = 0) ->
+  cs_off st0 + ops_len ops < 2 ^ 64 ->
+  exists d,
+    xrel dbg cx g d /\ calc dbg (wc_enc cx) (wc_lpv cx) d st0 = Ok st /\ write_die dbg cx d (cs_off st0) = Ok ops /\
+    die_expr_ok d /\ die_ids d = gdie_ids g /\
+    cs_off st = cs_off st0 + ops_len ops /\
+    map fst (ops_marks (cs_off st0) ops) = gdie_ids g /\
+    (forall i p, In (i, p) (ops_marks (cs_off st0) ops) -> nth_error (wc_entries cx) i = Some p).
+Proof. exact glue_offsets_exact_lemma. Qed.
+
+(* (g5) hence the operand of a unit-relative reference: the position of the target's DIE minus the unit offset ... *)
+Theorem glue_ref_is_mark : forall (dbg : bool) (cx : wcx) (en p : N),
+  nth_error (wc_entries cx) (N.to_nat en) = Some p -> p <> 0 -> wc_unit_off cx <= p ->
+  OpWr.entry_offset dbg (Some (cx_uo cx)) en = Ok (p - wc_unit_off cx).
+Proof. exact entry_offset_mark. Qed.
+
+(* ... and for ANY entry id that is not in the written tree — deleted, orphaned, reserved and never added, inside or
+   beyond the entries vector (gimli fix c42c00d, model corrected in the wrglue follow-up) — the forward-reference error
+   (C15 refs_need_offset: the operation then fails to write) *)
+Theorem glue_ref_orphan : forall (dbg : bool) (e : encoding) (be : bool) (lpv uoff : N) (g : gdie) (st0 st : cst) (en : N),
+  gcalc dbg e be lpv uoff g st0 = Ok st ->
+  (forall j y, nth_error (cs_entries st0) j = Some y -> y = 0) ->
+  ~ In (N.to_nat en) (gdie_ids g) ->
+  OpWr.entry_offset dbg (Some (ouo uoff (cs_entries st))) en = Err WUnsupportedExpressionForwardReference.
+Proof. exact entry_offset_orphan. Qed.
+
+(* a unit with a base type, a variable whose DW_AT_location is an expression with a typed reference (backward), a
+   call_ref (forward), a call (forward) and an implicit_pointer to itself, DW_AT_ranges, and a variable with a
+   location list whose expression references the base type *)
+Definition gx_enc : encoding := mkEnc 4 false 8.
+Definition gx_expr : OpWr.wexpr :=
+  [OpWr.WoDerefType false 4 1; OpWr.WoCallRef (OpWr.REntry 0 3); OpWr.WoCall 3; OpWr.WoImplicitPointer (OpWr.REntry 0 2) 5].
+Definition gx_root : gdie :=
+  GDie 0 17 false [(17, GV (AvAddress (AConst 4096)))]
+    [GDie 1 36 false [(11, GV (AvData1 4))] [];
+     GDie 2 52 false [(2, GExpr gx_expr); (85, GV (AvRangeListRef 0))] [];
+     GDie 3 52 false [(2, GV (AvLocationListRef 0))] []].
+Definition gx_unit : gunit :=
+  mkGunit gx_enc gx_root 4 [[ListWrSpec.ROffsetPair 1 2]] [[GLOffsetPair 1 2 [OpWr.WoVarValue (OpWr.REntry 0 1)]]].
+Definition gx_st0 : cst := mkCst 11 [0; 0; 0; 0] [] [0; 0; 0; 0].
+Definition gx_cx : wcx := mkWcx gx_enc false 0 0 [11; 20; 22; 47] [1; 2; 3; 4] None [] [] [0] [0] 2.
+
+Example glue_offsets_exact_ex :
+  match gcalc true gx_enc false 2 0 gx_root gx_st0 with
+  | Ok st =>
+      cs_entries st = [11; 20; 22; 47] /\ cs_codes st = [1; 2; 3; 4] /\ cs_off st = 53 /\
+      match gwrite_die true gx_cx gx_root 11 with
+      | Ok (ops, fx) =>
+          ops_marks 11 ops = [(0%nat, 11); (1%nat, 20); (2%nat, 22); (3%nat, 47)] /\ ops_len ops = 42 /\
+          (* call_ref at 27 (fix-up 28 -> entry 3), implicit_pointer at 37 (fix-up 38 -> entry 2): 22 + 1 code + 1 prefix + 3 / + 13 *)
+          map (fun f => (fx_offset f, id_idx (fx_entry f))) fx = [(28, 3%nat); (38, 2%nat)]
+      | _ => False
+      end
+  | _ => False
+  end /\ NoDup (gdie_ids gx_root) /\ gdie_ok gx_root.
+Proof.
+  split; [vm_compute; repeat split; reflexivity|]. split.
+  - change (NoDup [0; 1; 2; 3]%nat). repeat (constructor; [cbn; intuition discriminate|]). constructor.
+  - cbn. repeat split; repeat constructor; cbn; auto.
+Qed.
+
+(* the whole table write: .debug_info with the fix-ups resolved (28 -> 47 = DIE 3, 38 -> 22 = DIE 2, the typed reference
+   0x14 = 20 = DIE 1), DW_AT_ranges / DW_AT_location = the offsets the list writers returned, and the location list's
+   fix-up at 0 + 16 (addresses) + 2 (u16 length) + 1 = 19 registered in the .debug_loc list (DWARF 4) *)
+Example glue_table_ex :
+  match gtable_write true false [gx_unit] gsec_empty with
+  | Ok (o, s) =>
+      map go_entries o = [[11; 20; 22; 47]] /\ map go_rng o = [[0]] /\ map go_loc o = [[0]] /\
+      firstn 20 (skipn 22 (g_info s)) =
+        [x03; x13; xf6; x04; x14; x9a; x2f; x00; x00; x00; x99; x2f; x00; x00; x00; xf2; x16; x00; x00; x00] /\
+      map fx_offset (g_info_fx s) = [28; 38] /\ map fx_offset (g_loc_fx s) = [19] /\ g_loclists_fx s = [] /\
+      firstn 5 (skipn 18 (g_loc s)) = [xfd; x14; x00; x00; x00]
+  | _ => False
+  end.
+Proof. vm_compute. repeat split; reflexivity. Qed.
+
+Example exprloc_forward_ref_ex :
+  gav_size true gx_enc false 2 (ouo 0 [11; 20; 0; 0]) (GExpr [OpWr.WoUConst 1; OpWr.WoDerefType false 4 3]) =
+    Err WUnsupportedExpressionForwardReference /\
+  gav_size true gx_enc false 2 (ouo 0 [11; 20; 0; 0]) (GExpr [OpWr.WoUConst 1; OpWr.WoDerefType false 4 7]) =
+    Err WUnsupportedExpressionForwardReference /\
+  gav_size true gx_enc false 2 (ouo 0 [11; 20; 0; 0]) (GExpr [OpWr.WoUConst 1; OpWr.WoCall 3]) = Ok 7.
+Proof. vm_compute. repeat split; reflexivity. Qed.
+
+Check exprloc_attr_size_write : forall dbg cx pos v ops fx, gav_write dbg cx pos v = Ok (ops, fx) -> gexpr_ok v ->
+  ops_len ops < 2 ^ 64 -> gav_size dbg (wc_enc cx) (wc_be cx) (wc_lpv cx) (cx_uo cx) v = Ok (ops_len ops).
+Check glue_ref_is_mark : forall dbg cx en p, nth_error (wc_entries cx) (N.to_nat en) = Some p -> p <> 0 ->
+  wc_unit_off cx <= p -> OpWr.entry_offset dbg (Some (cx_uo cx)) en = Ok (p - wc_unit_off cx).
+
+(* (g6) end to end, for the unit body written by the composed passes: the operand a typed operation / call /
+   parameter_ref naming entry `en` embeds — `entry_offset` under the table the expressions were written with, which is
+   what exprloc_attr_roundtrip's normal_form says the C07 decoder reads back — is the position at which write emitted
+   the DIE of `en` (its WMark, = calculate_offsets' offset by offsets_exact) minus the unit's offset. *)
+Theorem glue_ref_operand : forall (dbg : bool) (cx : wcx) (g : gdie) (st0 st : cst) (ops : list wop) (fx : list fixup),
+  gcalc dbg (wc_enc cx) (wc_be cx) (wc_lpv cx) (wc_unit_off cx) g st0 = Ok st ->
+  wc_entries cx = cs_entries st -> wc_codes cx = cs_codes st ->
+  gwrite_die dbg cx g (cs_off st0) = Ok (ops, fx) ->
+  NoDup (gdie_ids g) -> gdie_ok g ->
+  (forall j y, nth_error (cs_entries st0) j = Some y -> y = 0) ->
+  cs_off st0 + ops_len ops < 2 ^ 64 ->
+  0 < cs_off st0 -> wc_unit_off cx <= cs_off st0 ->
+  forall en p, In (N.to_nat en, p) (ops_marks (cs_off st0) ops) ->
+    OpWr.entry_offset dbg (Some (cx_uo cx)) en = Ok (p - wc_unit_off cx).
+Proof. exact glue_ref_operand_lemma. Qed.
+
+(* in the example unit: deref_type names entry 1 (DIE at 20), call names entry 3 (DIE at 47); unit offset 0 *)
+Example glue_ref_operand_ex :
+  OpWr.entry_offset true (Some (cx_uo gx_cx)) 1 = Ok 20 /\ OpWr.entry_offset true (Some (cx_uo gx_cx)) 3 = Ok 47.
+Proof. vm_compute. split; reflexivity. Qed.
